@@ -16,7 +16,7 @@ EXPLANATION = ('(R1) the step argument of set_sampled is max_step_size * m; the 
                'per proposal is C06.R1.')
 
 
-def run(ctx):
+def _run_rules(ctx):
     rep, f = ctx.rep, ctx.facts
     rep.trust('pk/absval.py, pk/optmodel.py, pk/sym.py; rand: gen_range(lo,hi) returns a value in [lo,hi)')
     try:
@@ -155,3 +155,10 @@ def run(ctx):
     # from the last accepted one, and the next proposal is then larger than one step from it (C06.R3 obligations, imported)
     from .common import import_obligations
     import_obligations(ctx, 'C06', 'R3', only_rules={'R3'}, floor=3)
+
+
+def run(ctx):
+    _run_rules(ctx)
+    # R4: setter fidelity of the builder (the configured maximum is the one handed to build())
+    from .common import builder_setters
+    builder_setters(ctx, 'R4', ['max_step_size'])
